@@ -75,3 +75,35 @@ def parse(text: str, name: str = "<chunk>", verify: bool = True, allow_unregiste
         if isinstance(e, (KeyboardInterrupt, SystemExit)):
             raise
         return None
+
+
+_MANIFEST = None
+
+
+def was_verified(rel: str, index: int, text: str) -> bool:
+    """True iff this exact chunk text parsed and verified when mc/corpus_verified.json was generated (tools/gen_corpus_manifest.py)"""
+    import hashlib
+    import json
+
+    global _MANIFEST
+    if _MANIFEST is None:
+        try:
+            with open(os.path.join(os.path.dirname(os.path.abspath(__file__)), "corpus_verified.json")) as f:
+                _MANIFEST = {(a, b): c for a, b, c in json.load(f)}
+        except FileNotFoundError:
+            _MANIFEST = {}
+    return _MANIFEST.get((rel, index)) == hashlib.sha1(text.encode()).hexdigest()[:16]
+
+
+def why_rejected(text: str, name: str = "<chunk>") -> tuple[str, str]:
+    """(exception class, last line of the message) of parsing + verifying a chunk"""
+    from xdsl.parser import Parser
+
+    try:
+        Parser(fresh_ctx(), text, name).parse_module().verify()
+        return ("", "")
+    except BaseException as e:  # noqa: BLE001
+        if isinstance(e, (KeyboardInterrupt, SystemExit)):
+            raise
+        lines = str(e).strip().splitlines()
+        return (type(e).__name__, lines[-1].strip()[:160] if lines else "")
